@@ -16,7 +16,7 @@ type Gen struct {
 	R  *hx.Rand
 	NS string // the stream's content name space
 	n  int
-	// NoQuirks suppresses the shapes that hit the known finding (namespaced id)
+	// NoQuirks suppresses look-alike attributes ({urn:a}id, from, xmlns)
 	NoQuirks bool
 	// NoBig suppresses payloads above the encoder's buffer
 	NoBig bool
